@@ -51,10 +51,22 @@ pub fn catalog() -> Arc<Cat> {
     z.add(&apex, Type::SOA, Class::IN, ttl, <&Rdata>::try_from(&soa[..]).unwrap()).unwrap();
     let ns = wire(&[b"ns", b"example"]);
     z.add(&apex, Type::NS, Class::IN, ttl, <&Rdata>::try_from(&ns[..]).unwrap()).unwrap();
-    for (i, host) in ["ns.example.", "a.example.", "b.example.", "c.example.", "*.w.example."].iter().enumerate() {
+    // (the last four: the same octets "abc" split into labels in four ways - four different names)
+    for (i, host) in ["ns.example.", "a.example.", "b.example.", "c.example.", "*.w.example.", "abc.example.", "ab.c.example.",
+        "a.bc.example.", "a.b.c.example."]
+        .iter()
+        .enumerate()
+    {
         let n: Box<Name> = host.parse().unwrap();
         let rd = [192u8, 0, 2, i as u8 + 1];
         z.add(&n, Type::A, Class::IN, ttl, <&Rdata>::try_from(&rd[..]).unwrap()).unwrap();
+    }
+    // `*.big.example.`: four 200-octet TXT records (an ANY answer that does not fit 512 octets)
+    let big: Box<Name> = "*.big.example.".parse().unwrap();
+    for i in 0..4u8 {
+        let mut rd = vec![199u8];
+        rd.extend(std::iter::repeat(b'a' + i).take(199));
+        z.add(&big, Type::TXT, Class::IN, ttl, <&Rdata>::try_from(&rd[..]).unwrap()).unwrap();
     }
     let wc: Box<Name> = "*.cw.example.".parse().unwrap();
     let target = wire(&[b"a", b"example"]);
@@ -70,7 +82,9 @@ pub fn catalog() -> Arc<Cat> {
 ///   y<label>  `<label>.w.example.` ANY  -> NOERROR, every RRset of the wildcard (answer_any)
 ///   z<label>  `<label>.w.example.` TXT  -> NOERROR, no data, synthesized from `*.w.example.`
 ///   c<label>  `<label>.cw.example.` A   -> NOERROR, CNAME synthesized from `*.cw.example.` (-> a.example.)
+///   b<label>  `<label>.big.example.` ANY -> NOERROR from `*.big.example.` (4 x 200-octet TXT: truncated over UDP without EDNS)
 ///   x<label>  `<label>.nx.example.` A   -> NXDOMAIN
+///   (<label> may be several labels separated by '.')
 ///   r<label>  `<label>.other.` A        -> REFUSED
 ///   f         QDCOUNT=0, opcode QUERY   -> FORMERR, no question
 ///   m         QDCOUNT=2                 -> no response at all (send_response = false before RRL)
@@ -80,22 +94,29 @@ pub fn catalog() -> Arc<Cat> {
 pub fn query(kind: &str, edns: bool, id: u16) -> Vec<u8> {
     let (k, label) = kind.split_at(1);
     let edns = edns || k == "v";
-    let label = label.as_bytes();
+    // `<label>` may hold several labels separated by '.', leftmost first
+    let labels: Vec<&[u8]> = label.split('.').map(|l| l.as_bytes()).collect();
+    let with = |tail: &[&[u8]]| -> Vec<u8> {
+        let mut all: Vec<&[u8]> = labels.clone();
+        all.extend_from_slice(tail);
+        wire(&all)
+    };
     let mut m = vec![0u8; 12];
     m[0..2].copy_from_slice(&id.to_be_bytes());
     let (qname, qtype, opcode, qd): (Option<Vec<u8>>, u16, u8, u16) = match k {
-        "n" => (Some(wire(&[label, b"example"])), 1, 0, 1),
-        "d" => (Some(wire(&[label, b"example"])), 16, 0, 1),
-        "w" => (Some(wire(&[label, b"w", b"example"])), 1, 0, 1),
-        "y" => (Some(wire(&[label, b"w", b"example"])), 255, 0, 1),
-        "z" => (Some(wire(&[label, b"w", b"example"])), 16, 0, 1),
-        "c" => (Some(wire(&[label, b"cw", b"example"])), 1, 0, 1),
-        "x" => (Some(wire(&[label, b"nx", b"example"])), 1, 0, 1),
-        "r" => (Some(wire(&[label, b"other"])), 1, 0, 1),
+        "n" => (Some(with(&[b"example"])), 1, 0, 1),
+        "d" => (Some(with(&[b"example"])), 16, 0, 1),
+        "w" => (Some(with(&[b"w", b"example"])), 1, 0, 1),
+        "y" => (Some(with(&[b"w", b"example"])), 255, 0, 1),
+        "b" => (Some(with(&[b"big", b"example"])), 255, 0, 1),
+        "z" => (Some(with(&[b"w", b"example"])), 16, 0, 1),
+        "c" => (Some(with(&[b"cw", b"example"])), 1, 0, 1),
+        "x" => (Some(with(&[b"nx", b"example"])), 1, 0, 1),
+        "r" => (Some(with(&[b"other"])), 1, 0, 1),
         "f" => (None, 0, 0, 0),
         "m" => (Some(wire(&[b"a", b"example"])), 1, 0, 2),
-        "o" => (Some(wire(&[label, b"example"])), 1, 4, 1),
-        "v" => (Some(wire(&[label, b"example"])), 1, 0, 1),
+        "o" => (Some(with(&[b"example"])), 1, 4, 1),
+        "v" => (Some(with(&[b"example"])), 1, 0, 1),
         _ => panic!("unknown query kind {kind}"),
     };
     m[2] = opcode << 3;
